@@ -166,7 +166,24 @@ def run(ctx):
     rng = ctx.rng('invalid')
     mt = gen.gen_table(rng, 't', max_rows=8, ties=True)
     conn = engine.connection([mt])
-    for text in INVALID:
+    # the same target designated twice in different forms (position, column name, alias), and valid mixed forms
+    invalid = list(INVALID)
+    valid = []
+    for sel, refs in (('SELECT i, s, count(*) AS n', (['1', 'i'], ['2', 's'])), ('SELECT i AS a, s AS b, count(*) AS n', (['1', 'a'], ['2', 'b'])),
+                      ('SELECT count(*) AS n, s AS b, i AS a', (['3', 'a'], ['2', 'b']))):
+        gb = f'GROUP BY {refs[0][0]}, {refs[1][0]}'
+        for t1 in (0, 1):
+            for t2 in (0, 1):
+                for r1 in refs[t1]:
+                    for r2 in refs[t2]:
+                        (invalid if t1 == t2 else valid).append(f'{sel} FROM #t {gb} PIVOT BY {r1}, {r2}')
+    for text in valid:
+        try:
+            conn.execute(text).fetchall()
+            ctx.count('obs.valid_mixed_references_accepted')
+        except Exception as exc:  # noqa: BLE001
+            ctx.violation('c15.valid_reference_rejected', f'{text}: {exc!r}', {'statement': text})
+    for text in invalid:
         try:
             conn.execute(text)
             ctx.violation('c15.invalid_reference_accepted', f'{text}: accepted', {'statement': text})
